@@ -18,3 +18,19 @@ func verifBool(v bool) uint64 {
 	}
 	return 0
 }
+
+// verifFetchID returns the fetch id of a fetch item (^0 if it has none).
+func verifFetchID(item *FetchItem) uint64 {
+	if item == nil || item.Fetch == nil || item.Fetch.Dependencies() == nil {
+		return ^uint64(0)
+	}
+	return uint64(item.Fetch.Dependencies().FetchID)
+}
+
+// verifErrCount returns the number of entries in the loader's errors array.
+func verifErrCount(l *Loader) uint64 {
+	if l.errors == nil {
+		return 0
+	}
+	return uint64(len(l.errors.GetArray()))
+}
